@@ -23,7 +23,7 @@ META = {
             "every gate is applied to every pair of discovered states until no new (type, dict) state appears: all expression trees of ANY depth with gates "
             "of arity <= 2 over 2 variables (quick and thorough) and 3 variables (thorough; quick stops the 3-variable search after 3 rounds = expression depth 3) are covered by induction; 3- and 4-ary applications are enumerated over leaves and "
             "negated leaves. Each application's result table must equal the gate's truth function of the operand tables and operands must be unchanged. "
-            "Unary and leaf-level applications (thorough: all) are built a second time after the first result was edited in place: same result, operands unmoved.",
+            "Each gate is also applied once to 5..9 (thorough ..12) DISTINCT variables. Unary and leaf-level applications (thorough: all) are built a second time after the first result was edited in place: same result, operands unmoved.",
     "note": "Bounded: <=3 variables; arity >2 only on leaf-level operands. The closure argument relies on gate results depending only on the operands' (type, dict), "
             "which the search itself validates by rebuilding every state from its witness expression.",
 }
@@ -242,6 +242,29 @@ def nary(ctx, nvars, scheme, forms, label):
     ctx.log("%s: %d n-ary applications" % (label, len(tasks)))
 
 
+def wide(ctx):
+    """One gate over many DISTINCT variables (an operand that only its own variable makes true is visible only then):
+    arities 5..9 (quick) / 5..12 (thorough; XOR / XNOR up to 9: their PUBO has 2^n terms), labels and one-variable PUBOs."""
+    amax = 9 if ctx.quick else 12
+    tasks = [(g, n, form) for g in GATESN for n in range(5, amax + 1) for form in ("label", "PUBO") if not (g in ("XOR", "XNOR") and n > 9)]
+
+    def work(t):
+        g, n, form = t
+        ws = Stats()
+        labels = ["v%d" % i for i in range(n)]
+        exprs = [["leaf", form, i] for i in range(n)]
+        k, viol, expr = apply_gate(g, exprs, labels, ws, {}, recheck=False)
+        ws.evaluations += 1
+        ws.states += 1
+        ws.nontrivial += 1
+        for sig, msg in viol:
+            ws.violation(sig, {"part": "wide", "gate": g, "arity": n, "form": form}, msg)
+        return ws
+    for ws in pmap(work, tasks):
+        ctx.stats.merge(ws)
+    ctx.log("wide gates: %d applications with 5..%d distinct variables" % (len(tasks), amax))
+
+
 def run(ctx):
     global RECHECK_ALL
     RECHECK_ALL = not ctx.quick
@@ -255,16 +278,22 @@ def run(ctx):
     else:
         runs += [(3, "str", ["label"], "3var-str-labels-only-3-rounds")]
     ctx.bounds = {"closures": [{"variables": r[0], "labels": r[1], "leaf_forms": r[2]} for r in runs],
-                  "gates": GATES1 + GATESN, "arity": "1 and 2 closed under reachability; 3 over all leaves; 4 over labels and negated labels"}
+                  "gates": GATES1 + GATESN, "arity": "1 and 2 closed under reachability; 3 over all leaves; 4 over labels and negated labels; 5..%d over that many distinct variables" % (9 if ctx.quick else 12)}
     ctx.rule = ("state = (type, stored dict); all unary and binary gate applications over all pairs of discovered states until fixpoint; "
                 "non-trivial = state with >= 2 terms")
     for nvars, scheme, forms, label in runs:
         closure(ctx, nvars, scheme, forms, label, max_rounds=3 if (ctx.quick and nvars == 3) else None)
         nary(ctx, nvars, scheme, forms if nvars == 2 or not ctx.quick else ["label"], label + "-nary")
+    wide(ctx)
     ctx.exhaustive = True
 
 
 def replay(case):
+    if case.get("part") == "wide":
+        n = case["arity"]
+        st = Stats()
+        k, viol, _ = apply_gate(case["gate"], [["leaf", case["form"], i] for i in range(n)], ["v%d" % i for i in range(n)], st, {}, recheck=False)
+        return viol
     """Re-evaluate the expression bottom-up, checking the oracle at every node."""
     labels = gen.labels_for(case["scheme"], case["nvars"])
     out = []
